@@ -15,6 +15,8 @@ from ..world import CLUSTER_LPS, CONTEXT_FREE, LINEAR, TREE_LPS, Session, is_con
 
 ID = "C04"
 LEVEL = "exploration"
+USES_SERVERS = True       # helper interpreters are restarted for every execution made while minimising / replaying
+SHRINK_EXEC = 40
 QUICK_RUNS = 1600
 CHUNK = 10
 RULE = ("Each run: drawn policy combination (default-constructed and shared policy tuples included), seed, call history; "
@@ -54,6 +56,12 @@ def generate(rnd, tier, index=0):
     if rnd.random() < 0.3 and cfg["lp"][0] in DEFAULT_OK:
         flags["default_lp"] = True
         cfg["lp"] = [cfg["lp"][0], {}]
+    warm_scn = (not tree) and rnd.random() < 0.2
+    if warm_scn:
+        # warm-start scenario: a warm-start capable policy with cold arms; the other bandits warm-start with the SAME arm
+        # features and another quantile before A does (process-global caches keyed too coarsely show here)
+        cfg["np"] = None
+        flags["default_np"] = False
     ctxl = is_contextual(cfg)
     base = rnd.randint(1, 2)
     d = 3 * base if tree else rnd.randint(1, 3)
@@ -79,13 +87,27 @@ def generate(rnd, tier, index=0):
         if cfg["np"] and cfg["np"][0] == "KNearest" and flags["default_np"]:
             pass
         ops = gen.gen_history(rnd, cfg, spare, d, regime, rnd.randint(3, 10), warm=True, max_rows=12)
-    if rnd.random() < 0.3 and spare:
+    if warm_scn:
+        arms = list(cfg["arms"])
+        rk = "binary" if cfg["lp"][0] == "ThompsonSampling" else "nonneg"
+        trained = arms[:max(1, len(arms) // 2)]
+        w = gen.gen_warm(rnd, arms, dim=2)
+        w["q"] = rnd.choice([0.0, 0.25, 0.5])
+        Q = gen.gen_Q(rnd, 2, d, "exact") if ctxl else None
+        ops = [{"op": "fit", "rows": gen.gen_rows(rnd, trained, rnd.randint(4, 10), d, "exact", rk, ctxl)},
+               w, {"op": "expect", "Q": Q}, {"op": "predict", "Q": Q}]
+    if rnd.random() < 0.3 and spare and not warm_scn:
         ops.insert(0, {"op": "add_arm", "arm": spare[-1]})        # something between construction and first fit
     interf = []
     for i in range(len(ops) + 1):
         if rnd.random() < (0.8 if i <= 1 else 0.25):
             interf.append({"at": i, "seed": rnd.randrange(2 ** 20), "n": rnd.randint(6, 16),
                            "steps": rnd.choice([["construct"], ["construct", "fit"], ["construct", "fit", "predict"]])})
+    if warm_scn:
+        for it in interf:
+            it["steps"] = ["construct", "fit", "predict"]
+        if not any(it["at"] <= 1 for it in interf):
+            interf.insert(0, {"at": 1, "seed": rnd.randrange(2 ** 20), "n": 8, "steps": ["construct", "fit", "predict"]})
     return {"cfg": cfg, "flags": flags, "ops": ops, "interf": interf, "d": d, "tree": tree, "base": base}
 
 
@@ -128,6 +150,10 @@ def _interfere(case, item, shared_objs, stats):
             if "predict" in item["steps"]:
                 B.apply({"op": "predict", "Q": [rows[0][2], rows[-1][2]] if B.ctxl else None})
                 B.apply({"op": "expect", "Q": [rows[0][2]] if B.ctxl else None})
+            # the other bandit also warm-starts with the SAME arm features as A but another quantile
+            for wop in [o for o in case["ops"] if o["op"] == "warm_start"][:2]:
+                B.apply(dict(wop, q=rnd.choice([q for q in (0.0, 0.5, 1.0) if q != wop["q"]])))
+                stats["interfere_warm"] = stats.get("interfere_warm", 0) + 1
     except Exception:
         stats["interfere_exc"] = stats.get("interfere_exc", 0) + 1
 
@@ -235,7 +261,9 @@ def execute(case, ctx):
     if case.get("no_xproc"):
         return
     for hs in ("1", "random"):
-        for interfere in (False, True):
+        # one of the other interpreters executes the interfered scenario BEFORE it has ever run A alone: process-global
+        # state that the first user of some key fills in (a cache) then comes from the other bandits
+        for interfere in ((True, False) if hs == "1" else (False, True)):
             res = client_call({"kind": "call", "module": "mabsim.props.c04", "func": "run_A", "args": [case, interfere]},
                               hashseed=hs)
             if "error" in res:
